@@ -371,6 +371,8 @@ package core
 //@   havoc
 //@   modifies ghost.transported, ghost.cancel_calls, ghost.list_len[*], ghost.list_in[*], ghost.list_next[*], ghost.list_rest[*], ghost.list_first[*], ghost.held[addr(c.cancelLock)]
 //@   requires c != nil && c.cancelFuncs != nil && ghost.ccof[ival(ctx)] != nil && ghost.ccof[ival(ctx)].URL != nil
+//@   requires ghost.held[addr(c.cancelLock)] == 0
+//@   flag typeassert=panic
 //@   stable c.cancelFuncs
 //@   ensures [registration_removed_on_return] ghost.list_len[ref(c.cancelFuncs)] == old(ghost.list_len[ref(c.cancelFuncs)])
 //@   ensures_panic [registration_removed_on_panic] ghost.list_len[ref(c.cancelFuncs)] == old(ghost.list_len[ref(c.cancelFuncs)])
@@ -384,6 +386,7 @@ package core
 //@   havoc
 //@   modifies ghost.cancel_calls, ghost.aborted, ghost.spawned, ghost.wg[*], ghost.list_len[*], ghost.list_in[*], ghost.list_first[*], ghost.held[addr(c.cancelLock)]
 //@   requires c != nil && c.cancelFuncs != nil && ghost.list_nonnil[ref(c.cancelFuncs)] == 1 && ghost.list_len[ref(c.cancelFuncs)] >= 0
+//@   flag typeassert=panic
 //@   stable c.cancelFuncs
 //@   loop 1 invariant ghost.held[addr(c.cancelLock)] == 1 && ghost.list_len[ref(c.cancelFuncs)] == ghost.list_rest[ref(e)] &&
 //@       (e != nil ==> ghost.list_in[ref(e)] == ref(c.cancelFuncs)) && (e == nil ==> ghost.list_rest[ref(e)] == 0) &&
